@@ -1,7 +1,8 @@
 """C12 - a program converted to tape by bin2tap loads back to the same memory via tap2sna.
 
-Seam: bin2tap.main(args) -> TAP/PZX file -> tap2sna.main(--start START ...) -> SZX file,
-read back with skoolkit.snapshot.Snapshot.get.
+Seam: bin2tap.main(args) -> TAP/PZX file -> tap2sna.main(--start START ...) -> SZX or Z80
+file, decoded with the independent snapshot decoders of mc/refs/snapfmt.py (written from the
+published format descriptions), not with skoolkit's own reader.
 
 Space: every configuration that differs from a *default tape* in at most d dimensions
 (core.deviations; quick: d = 3 for the 48K tape, 2 for the 128K tape; thorough: 4 and 3),
@@ -13,6 +14,18 @@ for two default tapes:
          dimensions: begin, end, clear, loader, banks (every subset of size <= 2, the full
          set given explicitly, the empty selection ','), 7ffd, start, fmt, screen, input
 
+and for two *I/O families* that vary what surrounds the tape - the simulated-LOAD configuration
+tap2sna is given, the format of the snapshot it writes and the kind of content loaded - together
+with the dimensions that decide which blocks are on the tape (quick: d = 3 / 2; thorough: 4 / 3):
+
+  48K-io  : the default 48K tape
+            dimensions: fastload (-c fast-load=0: the ROM's LD-BYTES routine really runs), python
+            (-c python=1), cmio (-c cmio=1), out (z80 instead of szx), content ('runs': see
+            content_byte), screen, fmt, clear, input, length (256)
+  128K-io : the 128K tape --begin 32768 --end 32783 --clear BEGIN-50 --7ffd 16 --banks 3
+            dimensions: fastload, python, cmio, out, content, screen, fmt, banks (default six, none),
+            end (49152), input
+
 Alternatives are symbolic ('end+2' = address of the first byte after the program + 2,
 'org+1' ...) and are resolved against the other dimensions, so that e.g. "STACK lies one
 byte inside the data" means that for every length/ORG it is combined with.
@@ -21,11 +34,15 @@ Oracle (written from the bin2tap man page, not from the code): original bytes at
 original addresses (minus STACK-14..STACK-1 when no CLEAR is used), PC == START, SP ==
 STACK (no CLEAR) or just below the CLEAR address (CLEAR: "leaves the stack pointer
 alone"), every requested 128K bank holds its bytes, port 0x7FFD holds the requested
-value; tap2sna must report that it stopped at the start address.
+value; tap2sna must report that it stopped at the start address; the snapshot file must be
+decodable.
 """
 import os
 
+import zlib
+
 from .. import core, tools
+from ..refs import snapfmt
 
 PROPERTY = 'C12'
 NEEDS_C = True          # tap2sna uses the C simulator by default: bind the fresh build
@@ -57,13 +74,47 @@ def tag(a, seed, bank=None):
     return x & 255
 
 
-def scr_bytes(seed):
-    return bytes((i * 13 + 5 + seed) & 255 ^ (i >> 8) for i in range(6912))
+def _runs_pattern():
+    """The 'runs' content: for each of the two byte values that the Z80 snapshot format's run-length
+    coding distinguishes (0xED, its escape byte, coded as a block from 2 repetitions; 0x00, an ordinary
+    byte, coded from 5) every run length 1..6 (both thresholds +-1 and beyond), each run followed by a
+    separator (None); then a lone 0xED followed by a run of 1..6 zeros (the byte after a lone 0xED may
+    not start a block)."""
+    p = []
+    for v in (0xED, 0x00):
+        for n in range(1, 7):
+            p += [v] * n + [None]
+    for n in range(1, 7):
+        p += [0xED] + [0x00] * n + [None]
+    return p
+
+
+RUNS = _runs_pattern()      # 87 bytes; the first 15 are ED s ED ED s ED ED ED s ED ED ED ED s ED
+
+
+def content_byte(kind, i, t):
+    """Byte number i (counted from the first byte of the binary file / of a 128K bank / of the loading
+    screen) of content `kind`; t is the address tag.  'tag': the tag itself.  'runs': RUNS tiled, the
+    separators being the tags (moved off the two run values)."""
+    if kind == 'tag':
+        return t
+    v = RUNS[i % len(RUNS)]
+    if v is None:
+        return 0xA5 if t in (0xED, 0x00) else t
+    return v
+
+
+def scr_bytes(seed, kind='tag'):
+    return bytes(content_byte(kind, i, (i * 13 + 5 + seed) & 255 ^ (i >> 8)) for i in range(6912))
 
 
 # --------------------------------------------------------------------------- space
+# dimensions of the I/O families (no alternatives in the two tape families): simulated-LOAD parameters
+# passed to tap2sna with -c, the snapshot format it is asked to write, the content kind
+IO_DEFAULTS = dict(fastload=1, python=0, cmio=0, out='szx', content='tag')
+
 DEF48 = dict(machine='48', length=15, org='32768', start='default', stack='default', clear='none', begin='none',
-             end='none', fmt='tap', screen=0, input='bin')
+             end='none', fmt='tap', screen=0, input='bin', family='48K', **IO_DEFAULTS)
 
 
 def alts48(tier):
@@ -82,7 +133,7 @@ def alts48(tier):
 
 
 DEF128 = dict(machine='128', begin='32768', end='none', clear='begin-50', loader='default', banks='default', o7ffd=16,
-              start='default', fmt='tap', screen=0, input='bin')
+              start='default', fmt='tap', screen=0, input='bin', family='128K', **IO_DEFAULTS)
 
 
 def bank_subsets():
@@ -108,8 +159,25 @@ def alts128(tier):
     )
 
 
+# I/O families.  The 48K one starts from the default 48K tape; the 128K one from a tape with one 16K
+# bank and a 15-byte program (the tape C13 uses), because with fast-load=0 every byte on the tape is
+# really read by the ROM (python=1: about 5 s of CPU per 16K block).
+DEF48IO = dict(DEF48, family='48K-io')
+DEF128IO = dict(DEF128, family='128K-io', end='begin+15', banks='3')
+BASES = {'48K': DEF48, '128K': DEF128, '48K-io': DEF48IO, '128K-io': DEF128IO}
+
+
+def alts_io(machine):
+    a = dict(fastload=[0], python=[1], cmio=[1], out=['z80'], content=['runs'], screen=[1], fmt=['pzx'])
+    if machine == '48':
+        a.update(clear=['begin-1'], input=['z80'], length=[256])
+    else:
+        a.update(banks=['default', ','], end=['none'], input=['szx'])
+    return a
+
+
 def depth(tier):
-    """(48K, 128K) deviation bounds."""
+    """(48K, 128K) deviation bounds; the same for the tape families and the I/O families."""
     return (3, 2) if tier == 'quick' else (4, 3)
 
 
@@ -118,6 +186,10 @@ def configs(tier):
     for k, cfg in core.deviations(DEF48, alts48(tier), d48):
         yield k, cfg
     for k, cfg in core.deviations(DEF128, alts128(tier), d128):
+        yield k, cfg
+    for k, cfg in core.deviations(DEF48IO, alts_io('48'), d48):
+        yield k, cfg
+    for k, cfg in core.deviations(DEF128IO, alts_io('128'), d128):
         yield k, cfg
 
 
@@ -133,9 +205,18 @@ def _rel(spec, names):
 
 def resolve(cfg):
     """Concrete plan for one configuration, or (None, reason) if the documentation excludes it."""
-    if cfg['machine'] == '48':
-        return _resolve48(cfg)
-    return _resolve128(cfg)
+    plan, why = _resolve48(cfg) if cfg['machine'] == '48' else _resolve128(cfg)
+    if plan is not None:
+        io = {k: cfg.get(k, v) for k, v in IO_DEFAULTS.items()}
+        sim = []
+        if not io['fastload']:
+            sim.append('fast-load=0')
+        if io['python']:
+            sim.append('python=1')
+        if io['cmio']:
+            sim.append('cmio=1')
+        plan.update(sim=sim, out=io['out'], content=io['content'])
+    return plan, why
 
 
 def _resolve48(cfg):
@@ -218,13 +299,23 @@ def _resolve128(cfg):
 
 
 # --------------------------------------------------------------------------- building the tape
+_bank_cache = {}
+
+
+def bank_bytes(plan, seed, b):
+    """Content of RAM bank b of the 128K input image."""
+    key = (plan['content'], seed, b)
+    if key not in _bank_cache:
+        _bank_cache[key] = bytes(content_byte(plan['content'], o, tag(o, seed, b)) for o in range(16384))
+    return _bank_cache[key]
+
+
 def build_tape(plan, seed, d, stem='p'):
     """Run bin2tap.main for `plan`.  Returns (ToolResult, tape path, bin2tap argv)."""
-    from skoolkit.snapshot import write_snapshot
     args = []
     if plan['machine'] == '48':
         L, ORG = plan['L'], plan['ORG']
-        data = bytes(tag(a, seed) for a in range(ORG, ORG + L))
+        data = bytes(content_byte(plan['content'], a - ORG, tag(a, seed)) for a in range(ORG, ORG + L))
         if plan['input'] == 'bin':
             infile = tools.write_file(stem + '.bin', data, d)
             if plan['pass_org']:
@@ -237,8 +328,10 @@ def build_tape(plan, seed, d, stem='p'):
             # a 48K snapshot as input: the program is cut out with --begin/--end (always given)
             ram = [tag(a, seed + 1) ^ 0x5A for a in range(16384, 65536)]
             ram[ORG - 16384:ORG - 16384 + L] = data
-            infile = os.path.join(d, stem + '-in.z80')
-            write_snapshot(infile, ram, [], [])
+            # written by the reference writer (plain, uncompressed v3 file), not by skoolkit's own snapshot
+            # writer: a fault there must not masquerade as a bin2tap failure
+            infile = tools.write_file(stem + '-in.z80', snapfmt.build_z80(
+                3, dict(sp=23552, i=63, iy=23610, iff1=1, iff2=1, im=1), {5: ram[:16384], 2: ram[16384:32768], 0: ram[32768:]}), d)
             args += ['-b', plan['B'], '-e', plan['E']]
         if plan['START'] is not None:
             args += ['-s', plan['START']]
@@ -247,12 +340,12 @@ def build_tape(plan, seed, d, stem='p'):
         if plan['CLEAR'] is not None:
             args += ['-c', plan['CLEAR']]
     else:
-        image = bytes(tag(o, seed, b) for b in range(8) for o in range(16384))
+        image = b''.join(bank_bytes(plan, seed, b) for b in range(8))
         if plan['input'] == 'bin':
             infile = tools.write_file(stem + '.bin', image, d)
         else:
-            infile = os.path.join(d, stem + '-in.szx')
-            write_snapshot(infile, [list(image[b * 16384:(b + 1) * 16384]) for b in range(8)], [], ['7ffd=0'], '128K')
+            infile = tools.write_file(stem + '-in.szx', snapfmt.build_szx(
+                dict(sp=23552, i=63, iy=23610, iff1=1, iff2=1, im=1, out7ffd=0), [image[b * 16384:(b + 1) * 16384] for b in range(8)]), d)
         args += ['--7ffd', plan['o7ffd'], '-b', plan['B'], '-c', plan['CLEAR']]
         if plan['E'] != 49152:
             args += ['-e', plan['E']]
@@ -263,7 +356,7 @@ def build_tape(plan, seed, d, stem='p'):
         if plan['START'] is not None:
             args += ['-s', plan['START']]
     if plan['screen']:
-        scr = tools.write_file(stem + '.scr', scr_bytes(seed), d)
+        scr = tools.write_file(stem + '.scr', scr_bytes(seed, plan['content']), d)
         args += ['-S', scr]
     tape = os.path.join(d, stem + '.' + plan['fmt'])
     if os.path.exists(tape):
@@ -277,6 +370,8 @@ def tap2sna_args(plan, tape, out, extra=()):
     a = ['--start', plan['eff_start'], '-c', 'timeout={}'.format(horizon(plan))]
     if plan['machine'] == '128':
         a += ['-c', 'machine=128']
+    for p in plan['sim']:
+        a += ['-c', p]
     a += list(extra)
     a += [tape, out]
     return a
@@ -288,7 +383,7 @@ def expected_memory(plan, seed):
     B, E = plan['B'], plan['E']
     exempt = set()
     if plan['machine'] == '48':
-        want = bytes(tag(a, seed) for a in range(B, E))
+        want = bytes(content_byte(plan['content'], a - plan['ORG'], tag(a, seed)) for a in range(B, E))
         if plan['CLEAR'] is None:
             # man page, STACK POINTER: "Stack operations will overwrite the bytes in the address range
             # STACK-14 to STACK-1 inclusive"
@@ -296,30 +391,32 @@ def expected_memory(plan, seed):
             exempt = set(range(S - 14, S))
         out.append(('program', None, B, want, exempt))
     else:
-        want = bytes(tag(a & 0x3FFF, seed, 5 if a < 32768 else 2) for a in range(B, E))
+        want = bytes(bank_bytes(plan, seed, 5 if a < 32768 else 2)[a & 0x3FFF] for a in range(B, E))
         # man page, 128K TAPES: the bank loader (39-45 bytes) is placed at CLEAR+1 / --loader
         exempt = set(range(plan['eff_loader'], plan['eff_loader'] + plan['loader_len']))
         out.append(('program', None, B, want, exempt))
         for b in (BANKS if plan['banks'] is None else plan['banks']):
-            out.append(('bank {}'.format(b), b, 0, bytes(tag(o, seed, b) for o in range(16384)), set()))
+            out.append(('bank {}'.format(b), b, 0, bank_bytes(plan, seed, b), set()))
     return out
 
 
-def check_snapshot(plan, seed, szx, stdout):
+def check_snapshot(plan, seed, path, stdout):
     """Oracle.  Returns list of (kind, detail)."""
-    from skoolkit.snapshot import Snapshot
     bad = []
-    s = Snapshot.get(szx)
-    ram = s.ram(-1)
-    is128 = len(ram) == 0x20000
+    with open(path, 'rb') as f:
+        data = f.read()
+    try:
+        s = snapfmt.read(data, plan['out'])
+    except (snapfmt.FormatError, IndexError, ValueError, zlib.error) as e:
+        # the file tap2sna wrote does not follow the published format: no emulator can restore the memory
+        return [('snapshot', 'the {} snapshot written by tap2sna cannot be decoded: {}: {}'.format(plan['out'], type(e).__name__, e))]
+    is128 = s.is128
     if is128 != (plan['machine'] == '128'):
-        return [('machine', 'snapshot has {} bytes of RAM'.format(len(ram)))]
+        return [('machine', 'snapshot is for machine {}'.format(s.machine))]
 
     def peek(a):
-        if not is128:
-            return ram[a - 16384]
-        bank = {1: 5, 2: 2}[a >> 14]
-        return ram[bank * 16384 + (a & 0x3FFF)]
+        # the program of a 128K tape lies below 49152 (banks 5 and 2); 48K: banks 5, 2, 0 hold 16384-65535
+        return s.banks[(None, 5, 2, 0)[a >> 14]][a & 0x3FFF]
     if s.pc != plan['eff_start']:
         bad.append(('pc', 'PC={} expected START={}'.format(s.pc, plan['eff_start'])))
     if 'Simulation stopped (PC at start address)' not in stdout:
@@ -335,7 +432,7 @@ def check_snapshot(plan, seed, szx, stdout):
             got = bytes(peek(a) for a in range(base, base + len(want)))
             diff = [base + i for i in range(len(want)) if got[i] != want[i] and base + i not in exempt]
         else:
-            got = bytes(ram[bank * 16384:(bank + 1) * 16384])
+            got = bytes(s.banks[bank])
             diff = [i for i in range(16384) if got[i] != want[i]]
         if diff:
             a = diff[0]
@@ -345,11 +442,12 @@ def check_snapshot(plan, seed, szx, stdout):
         bad.append(('7ffd', 'port 0x7FFD holds {} expected {}'.format(s.out7ffd, plan['o7ffd'])))
     if plan['screen']:
         # -S: "Add a loading screen to the tape file": the display file must hold it when START is reached
-        want = scr_bytes(seed)
+        want = scr_bytes(seed, plan['content'])
         got = bytes(peek(a) for a in range(16384, 23296))
         if got != want:
-            n = sum(1 for i in range(6912) if got[i] != want[i])
-            bad.append(('screen', 'loading screen: {} byte(s) differ'.format(n)))
+            diff = [i for i in range(6912) if got[i] != want[i]]
+            bad.append(('screen', 'loading screen: {} byte(s) differ, first at {}: {} expected {}'.format(
+                len(diff), 16384 + diff[0], got[diff[0]], want[diff[0]])))
     return bad
 
 
@@ -363,12 +461,14 @@ def run_case(cfg, seed):
     info = {'plan': plan, 'bin2tap': bargs}
     if r.rc or not os.path.isfile(tape):
         return 'bad', [('bin2tap', 'bin2tap failed: {} {}'.format(r.exc, r.err[-200:]))], info
-    out = os.path.join(d, 'p.szx')
+    out = os.path.join(d, 'p.' + plan['out'])
     if os.path.exists(out):
         os.remove(out)
     targs = tap2sna_args(plan, tape, out)
     info['tap2sna'] = [str(a) for a in targs]
-    with core.watchdog(120, 'tap2sna ' + ' '.join(info['tap2sna'])):
+    # wall-clock guard against a hang only (the T-state horizon is tap2sna's timeout parameter); the Python
+    # simulator reading every bit of a six-bank tape takes about a minute of CPU on an idle machine
+    with core.watchdog(900 if plan['sim'] else 120, 'tap2sna ' + ' '.join(info['tap2sna'])):
         t = tools.run_tool('tap2sna', targs)
     info['stdout'] = t.out
     if t.rc or not os.path.isfile(out):
@@ -386,7 +486,8 @@ def case_key(cfg):
 
 def tags_for(cfg, plan, bad):
     t = {'machine': cfg['machine'], 'kinds': sorted({k for k, _ in bad}), 'clear': plan['CLEAR'] is not None,
-         'clear_addr': plan['CLEAR'], 'fmt': plan['fmt'], 'screen': plan['screen'], 'input': plan['input']}
+         'clear_addr': plan['CLEAR'], 'fmt': plan['fmt'], 'screen': plan['screen'], 'input': plan['input'],
+         'family': family(cfg), 'sim': ','.join(plan['sim']) or 'default', 'out': plan['out'], 'content': plan['content']}
     if cfg['machine'] == '48':
         t['length'] = plan['E'] - plan['B']
         # STACK relative to the first address of the data block on the tape (bin2tap.run's `org`)
@@ -398,10 +499,14 @@ def tags_for(cfg, plan, bad):
     return t
 
 
+def family(cfg):
+    return cfg.get('family') or cfg['machine'] + 'K'
+
+
 def cfg_id(cfg):
-    base = DEF48 if cfg['machine'] == '48' else DEF128
-    dev = ['{}={}'.format(k, v) for k, v in cfg.items() if base[k] != v]
-    return cfg['machine'] + 'K/' + (','.join(dev) or 'default')
+    base = BASES[family(cfg)]
+    dev = ['{}={}'.format(k, v) for k, v in cfg.items() if k in base and base[k] != v]
+    return family(cfg) + '/' + (','.join(dev) or 'default')
 
 
 def _shard(shard, nshards, tier, seed):
@@ -427,7 +532,8 @@ def _shard(shard, nshards, tier, seed):
         stats.traces += 1
         plan = info['plan']
         stats.state((plan['machine'], plan['B'], plan['E'], plan['eff_start'], plan['eff_stack'], plan['CLEAR'], plan['fmt'],
-                     plan['screen'], plan.get('banks') and tuple(plan['banks']), plan.get('o7ffd')))
+                     plan['screen'], plan.get('banks') and tuple(plan['banks']), plan.get('o7ffd'), tuple(plan['sim']),
+                     plan['out'], plan['content']))
         if k:
             stats.nontriv(cfg_id(cfg))
         stats.counters['machine_' + cfg['machine']] += 1
@@ -444,6 +550,16 @@ def _shard(shard, nshards, tier, seed):
                 stats.counters['prefilled_stack_bytes_begin_below_data'] += 1
         if plan['input'] != 'bin':
             stats.counters['snapshot_input'] += 1
+        stats.counters['family_' + family(cfg)] += 1
+        for p in plan['sim']:
+            stats.counters['sim_' + p] += 1
+        if 'fast-load=0' in plan['sim'] and 'python=1' not in plan['sim'] and plan['screen']:
+            # the ROM's LD-BYTES, run by a C simulator, stores a non-zero byte at 16384, the first byte of RAM
+            stats.counters['c_simulator_loads_byte_by_byte_from_16384'] += 1
+        stats.counters['out_' + plan['out']] += 1
+        stats.counters['content_' + plan['content']] += 1
+        if plan['out'] == 'z80' and plan['content'] == 'runs':
+            stats.counters['z80_out_of_ed_runs'] += 1
         if plan['machine'] == '128':
             stats.counters['banks_{}'.format(6 if plan['banks'] is None else len(plan['banks']))] += 1
             if plan['LOADER'] is not None:
@@ -466,22 +582,37 @@ def run(tier, seed):
              'CLEAR {{none,BEGIN-1,24999,23952}}, --begin {{none,ORG+1,mid}}, --end {{none,last,mid+1}}, tap/pzx, screen, binary/Z80 input; and of the default '
              '128K tape (--begin 32768 --clear BEGIN-50 --7ffd 16, six banks) over --begin {{24200,32768,49000}}, --end {{49152,BEGIN+15}}, CLEAR '
              '{{BEGIN-50,BEGIN-1,lowest usable}}, --loader, --banks (every subset of size <= 2, the full set, the empty selection), --7ffd '
-             '{{0,1,7,16,17,23}}, START, tap/pzx, screen, binary/SZX input.  One evaluation = bin2tap.main + tap2sna.main + oracle; non-trivial = '
-             'any non-default configuration; content seed {} only rotates the byte-tag formula'.format(d48, ',41000' if tier == 'thorough' else '', d128, seed),
+             '{{0,1,7,16,17,23}}, START, tap/pzx, screen, binary/SZX input.  I/O families: every configuration within {} deviations of the default '
+             '48K tape over simulated-LOAD parameters fast-load {{1,0}}, python {{0,1}}, cmio {{0,1}}, snapshot format written by tap2sna {{szx,z80}}, '
+             'content {{address tags, runs}}, screen, tap/pzx, CLEAR {{none,BEGIN-1}}, binary/Z80 input, length {{15,256}}; and within {} deviations of '
+             'the 128K tape --begin 32768 --end 32783 --clear BEGIN-50 --7ffd 16 --banks 3 over the same fast-load, python, cmio, snapshot format '
+             'and content dimensions, screen, tap/pzx, --banks {{3, default six, none}}, --end {{BEGIN+15,49152}}, binary/SZX input.  Content '
+             '"runs" fills the binary (from its first byte), every 128K bank and the loading screen with an 87-byte pattern tiled: runs of 1..6 '
+             'bytes 0xED and of 1..6 bytes 0x00, each followed by one address-tag byte, then 0xED followed by 1..6 zeros and a tag byte (the '
+             'alphabet of the Z80 format\'s run-length coding: escape byte from 2 repetitions, other bytes from 5).  One evaluation = '
+             'bin2tap.main + tap2sna.main + oracle; non-trivial = any non-default configuration; content seed {} only rotates the byte-tag '
+             'formula'.format(d48, ',41000' if tier == 'thorough' else '', d128, d48, d128, seed),
         exhaustive=True,
-        bound='configuration deviations d <= {} from the default 48K tape and d <= {} from the default 128K tape (complete)'.format(d48, d128),
+        bound='configuration deviations d <= {} from the default 48K tape and d <= {} from the default 128K tape, in the tape families and '
+              'in the I/O families (complete)'.format(d48, d128),
         assumptions=[
             'option combinations the bin2tap man page excludes are not generated: STACK < 16398, CLEAR < 23952 (48K) / 23957 / 23977 with a '
             'screen (128K), CLEAR at or above the program, empty --begin/--end ranges, programs that do not fit below 65536',
             'STACK-14..STACK-1 is exempt from the byte comparison when no CLEAR is used (documented stack use)',
             '128K: program bytes covered by the bank loader (CLEAR+1 or --loader, 39+banks bytes) are exempt, and START is never placed inside the loader',
             'with CLEAR the man page says the stack pointer is left alone: the oracle requires CLEAR-64 < SP <= CLEAR',
-            'tap2sna is always given --start START (documented stop rule) and -c timeout=N (N = upper bound of the tape\'s playing time + 60 s) as the horizon; otherwise the default simulated-LOAD configuration',
+            'tap2sna is always given --start START (documented stop rule) and -c timeout=N (N = upper bound of the tape\'s playing time + 60 s) as the horizon; '
+            'otherwise the default simulated-LOAD configuration in the tape families, and the default plus the stated fast-load/python/cmio deviations in the I/O families '
+            '(accelerator, accelerate-dec-a, pause, polarity and first-edge are explored by C13 on these tapes)',
+            'the snapshot is decoded with mc/refs/snapfmt.py (independent Z80/SZX decoders); a file that cannot be decoded is a violation; '
+            'format-rule notes of the decoder (e.g. a repeat block shorter than the coding rules require) are C09\'s subject and ignored here',
             'with -S the loading screen must be intact in the display file when START is reached',
         ],
         required_guards=['machine_48', 'machine_128', 'fmt_pzx', 'screen', 'clear', 'stack_window_overlaps_data',
                          'prefilled_stack_bytes_inside_data', 'prefilled_stack_bytes_begin_below_data', 'snapshot_input',
-                         'banks_0', 'banks_1', 'banks_2', 'banks_6', 'explicit_loader', 'excluded_by_documentation'],
+                         'banks_0', 'banks_1', 'banks_2', 'banks_6', 'explicit_loader', 'excluded_by_documentation',
+                         'family_48K-io', 'family_128K-io', 'sim_fast-load=0', 'sim_python=1', 'sim_cmio=1', 'out_szx', 'out_z80',
+                         'content_runs', 'z80_out_of_ed_runs', 'c_simulator_loads_byte_by_byte_from_16384'],
     )
     return stats, meta
 
